@@ -99,6 +99,32 @@ def wireValueOK (v : Bytes) : Bool := v.all fun b => !((b < 0x20 || b == 0x7F) &
 
 def wireOK (fs : List Field) : Bool := fs.all fun f => wireNameOK f.1 && wireValueOK f.2
 
+/-- `readMetaFrame` + `checkPseudos` on a frame from an arbitrary peer: every value legal; every
+    regular name legal; no pseudo-header after a regular field; pseudo-header names known, not
+    repeated, and not mixing request (:method :path :scheme :authority :protocol) with response
+    (:status) ones. A frame failing this is answered with a stream error (PROTOCOL_ERROR). -/
+def isPseudoName (n : Bytes) : Bool :=
+  match n with
+  | c :: _ => c == 58
+  | [] => false
+
+def pseudoBeforeRegular : List Field → Bool
+  | [] => true
+  | f :: rest => if isPseudoName f.1 then pseudoBeforeRegular rest else rest.all fun g => !isPseudoName g.1
+
+def noDup : List Bytes → Bool
+  | [] => true
+  | x :: rest => !rest.contains x && noDup rest
+
+def framerOK (fs : List Field) : Bool :=
+  let pseudo := (fs.filter fun f => isPseudoName f.1).map (·.1)
+  let reqNames := [":method", ":path", ":scheme", ":authority", ":protocol"].map asciiBytes
+  let isReq := pseudo.any fun n => reqNames.contains n
+  let isResp := pseudo.contains (asciiBytes ":status")
+  wireOK fs && pseudoBeforeRegular fs &&
+    pseudo.all (fun n => reqNames.contains n || n == asciiBytes ":status") &&
+    noDup pseudo && !(isReq && isResp)
+
 /-! ### server: request header fields → handler metadata -/
 
 def hAuthority : Bytes := asciiBytes ":authority"
